@@ -125,6 +125,9 @@ class TT():
 
         elif isinstance(source, list):
             # tt cores were passed directly
+            if not all(tn.is_tensor(c) for c in source):
+                raise InvalidArguments(
+                    "Invalid input: the TT-cores have to be torch tensors.")
 
             # check if sizes are consistent
             prev = 1
